@@ -167,3 +167,13 @@ package keeper
 //@   flag pure=UnwrapSDKContext
 //@   flag havoc=SetTaskResultInfo
 //@   before[C20.msg.str.sender,C10.msg.str.sender] SetTaskResultInfo requires arg_addr == req.FromAddress && arg_info == req.Info
+
+// C05 (every opted-in operator of an AVS has a recorded value at each of its epoch ends - zero when there is nothing to
+// price): the supported-asset set of a registered AVS is a set, possibly EMPTY, never "no set": the voting-power update
+// treats a missing set as "delete every record of this AVS".
+//@ func (*Keeper).GetAVSSupportedAssets
+//@   flag noframe
+//@   flag pure=IsHexAddress,GetAVSInfo,GetStakingAssetInfo,Wrap,Sprintf
+//@   ensures[C05.gasa.set] err == nil ==> r0 != nil
+//@ loop #1
+//@   invariant ret != nil
